@@ -187,6 +187,20 @@ theorem C14_to_screen_rows (s : Screen) (w : WF s) (v : View) (h : v.sel.length 
 /-- every screen `Screen(...)` builds is well-formed, so the hypothesis of `C14_to_screen_rows` holds for real screens -/
 theorem C14_built_screens_wf (r : Raw) (s : Screen) (h : mk? r = .ok s) : WF s := wf_of_mk? r s h
 
+/-- **`to_screen()` reads the parent's ROWS only.** The materialised screen is a function of the parent's control name, arity
+    and row arrays (names, doses, sample names, plate NAMES, observations, mask) at the selection: two parents that agree on
+    those — whatever their id arrays and their treatment / sample / plate mappings are — materialise to the same screen. In
+    particular the result does not depend on the parent's plate ids or on its stored plate mapping, which is stale after an
+    in-place `Plate.merge` (merge rewrites `plate_names` and re-encodes `_plate_ids` but does not refresh `_plate_mapping`). -/
+theorem C14_to_screen_ignores_pmap (s s' : Screen) (v : View)
+    (h1 : s'.ctrl = s.ctrl) (h2 : s'.arity = s.arity) (h3 : s'.tnames = s.tnames) (h4 : s'.tdoses = s.tdoses)
+    (h5 : s'.snames = s.snames) (h6 : s'.pnames = s.pnames) (h7 : s'.obs = s.obs) (h8 : s'.mask = s.mask) :
+    s'.viewToScreen v = s.viewToScreen v ∧
+    (∀ (pids : List Int) (pmap : SMap), ({ s with pids := pids, pmap := pmap } : Screen).viewToScreen v = s.viewToScreen v) := by
+  refine ⟨?_, fun _ _ => rfl⟩
+  unfold Screen.viewToScreen
+  rw [h1, h2, h3, h4, h5, h6, h7, h8]
+
 /-! ### the unique-condition filter -/
 
 /-- **The unique mask keeps exactly one row per distinct key — the first occurrence.** The kept keys are the distinct
